@@ -343,12 +343,13 @@ def standin_assembly(ctx):
 UNITS["standin/assembly"] = standin_assembly
 
 
-def _threads():
+def _thread_unit(nu, nv):
     # the threaded path of BilinearForm._assemble must produce the same triplets (contract shared with C16)
-    from props import C16
-    for nu, nv in ((2, 1), (2, 3)):
-        UNITS["threads/Nu%dNv%d" % (nu, nv)] = C16.threaded_unit(nu, nv)
+    def run(ctx):
+        from props import C16
+        return C16.threaded_unit(nu, nv)(ctx)
+    return run
 
 
-_threads()
-HEAVY_FIRST = ["standin/assembly"]
+for _nu, _nv in ((2, 1), (2, 3)):
+    UNITS["threads/Nu%dNv%d" % (_nu, _nv)] = _thread_unit(_nu, _nv)
